@@ -543,7 +543,7 @@ impl<TC: HasRef> DirCtx<TC> {
     /// C10: the publish is executed once per storage operation index k with operation k failing
     /// (Connection error); after each failed call: sweep on the same instance, sweep on a fresh
     /// instance over the same storage, then a retry that must succeed.
-    pub async fn publish_fault_sweep(&mut self, batch: &Value, tr: &mut Tracer) {
+    pub async fn publish_fault_sweep(&mut self, batch: &Value, alt: &Value, tr: &mut Tracer) {
         // learn the number of storage operations of this publish on a scratch copy
         let mut probe = self.fork_same(true).await;
         probe.db.reset_counter();
@@ -560,6 +560,10 @@ impl<TC: HasRef> DirCtx<TC> {
             let before = f.roots.len() as u64 - 1;
             let w = f.writer().await;
             let res = w.publish(real).await;
+            // let any task the publish spawned (parallel insertion) and abandoned run on
+            for _ in 0..50 {
+                tokio::task::yield_now().await;
+            }
             let oplog = f.db.take_log();
             f.db.set_log(false);
             f.db.reset_counter();
@@ -590,8 +594,12 @@ impl<TC: HasRef> DirCtx<TC> {
             tr.emit(json!({"ev": "reopen", "kind": "fresh_instance"}));
             let mut g = f.fork_same(false).await;
             g.sweep(tr).await;
-            // retry on the same instance
-            f.publish(batch, tr).await;
+            // a later publish on the same instance: the same batch again, or (every other k) a different one
+            if k % 2 == 0 && alt.is_array() {
+                f.publish(alt, tr).await;
+            } else {
+                f.publish(batch, tr).await;
+            }
             f.sweep(tr).await;
         }
         tr.emit(json!({"ev": "restore"}));
@@ -1106,7 +1114,7 @@ pub async fn run_behaviour<TC: HasRef>(b: &Value, tr: &mut Tracer) {
     for (i, st) in steps.iter().enumerate() {
         match st["op"].as_str().unwrap() {
             "publish" => ctx.publish(&st["batch"], tr).await,
-            "publish_fault_sweep" => ctx.publish_fault_sweep(&st["batch"], tr).await,
+            "publish_fault_sweep" => ctx.publish_fault_sweep(&st["batch"], &st["alt"], tr).await,
             "remote_open" => {
                 remote = Some(ctx.open_remote(st["cache"].as_str().unwrap_or("default")).await);
                 tr.emit(json!({"ev": "reopen", "kind": "remote_open"}));
